@@ -21,6 +21,21 @@ pub fn run(out: &mut Out, thorough: bool, seed: u64, _extra: &[String]) {
             let v = coef_view(&s, &it.ct);
             out.case(&format!("fresh_budget {}", s.ct_case(&v)), &format!("{}-fresh", scheme_name(scheme)), || budget(&s, &it.ct).to_string());
         }
+        // fresh encryptions of plaintexts on the carry boundaries of the Delta*m scaling ((q mod t)*m + (t+1)/2 around multiples of 2^64; matters for
+        // t > 2^32): the budget must still meet the worst-case fresh bound
+        if scheme == SchemeType::BFV {
+            let cd = s.ctx.first_context_data().unwrap();
+            let cand = crate::c01::carry_boundary_coeffs(&mut r, s.t, cd.coeff_modulus_mod_plain_modulus());
+            for rep2 in 0..2 {
+                let coeffs: Vec<u64> = (0..s.n).map(|i| cand[(i * 7 + rep2 * 3 + r.below(3) as usize) % cand.len()]).collect();
+                let p = plain_of(&coeffs);
+                for sym in [false, true] {
+                    let ct = if sym { let mut c = Ciphertext::new(); s.encryptor.encrypt_symmetric(&p, &mut c); c } else { s.encryptor.encrypt_new(&p) };
+                    let v = coef_view(&s, &ct);
+                    out.case(&format!("fresh_budget {}", s.ct_case(&v)), &format!("bfv-fresh-carry-{}", if s.t > (1u64 << 32) { "wide" } else { "narrow" }), || budget(&s, &ct).to_string());
+                }
+            }
+        }
         let mut steps = 0; let mut tries = 0;
         while steps < 12 && tries < 80 {
             tries += 1;
